@@ -343,3 +343,73 @@ def run(db, cx):
             cx.ob("C05.6-mfp", "TrackUpdater reduces the MFP only when the step was not limited by "
                   "the discrete action", g, "", short(ev["loc"]),
                   why="reducing it for an interacting track double-counts the path")
+
+    # 7 linear propagation: position and boundary flag agree -------------------
+    linear_propagator_boundary(db, cx, "C05.5-linear-boundary")
+
+
+def linear_propagator_boundary(db, cx, rule):
+    """LinearPropagator::operator()(dist): the geometry's find_next_step says whether the step
+    ends on a boundary.  The track must then be moved onto it (move_to_boundary) and the flag
+    returned unchanged; move_internal is for the other case only.  A track moved by
+    move_internal onto the surface, or a returned flag that differs from the geometry's, leaves
+    the step point's volume/surface state inconsistent with the boundary action dispatch."""
+    LP = C + "LinearPropagator::operator()"
+    fs = [f for f in db.get(LP) if any(ev["callee"].endswith("::find_next_step") for (_b, _i, ev) in f.events("call"))]
+    cx.floor("LinearPropagator::operator() instantiations", len(fs), 1)
+    n = 0
+    for f in fs:
+        tag = "%s(%s)" % (f.inst.split("<")[-1].split(">")[0].split("::")[-1], ",".join(p["n"] for p in f.r["params"]))
+        fns = [(b, i, ev) for (b, i, ev) in f.events("call") if ev["callee"].endswith("::find_next_step")]
+        res = [ev["var"] for (_b, _i, ev) in f.events("def")
+               if any(c.endswith("::find_next_step") for c in ev.get("calls", []))]
+        cx.require(res, "LinearPropagator %s: result of find_next_step is not a named local" % tag)
+        rv = res[0]
+        mtb = [(b, i, ev) for (b, i, ev) in f.events("call") if ev["callee"].endswith("::move_to_boundary")]
+        mi = [(b, i, ev) for (b, i, ev) in f.events("call") if ev["callee"].endswith("::move_internal")]
+        cx.require(mtb, "LinearPropagator %s: no move_to_boundary" % tag)
+        # the flag returned is the geometry's
+        wr = [ev for (_b, _i, ev) in f.events("write")
+              if ev.get("path", {}).get("root") == "l:" + rv
+              and (path_leaf(ev.get("path")) or "").split("::")[-1] in ("boundary", "")] + \
+             [ev for (_b, _i, ev) in f.events("def") if ev.get("var") == rv and ev.get("kind") != "decl"]
+        rets = [ev for (_b, _i, ev) in f.events("return")]
+        ret_ok = bool(rets) and all(ev.get("path", {}).get("root") == "l:" + rv and not ev.get("path", {}).get("chain")
+                                    for ev in rets)
+        n += 1
+        cx.ob(rule, "LinearPropagator %s returns the geometry's boundary flag unchanged" % tag,
+              ret_ok and not wr, "; ".join("%s @%s" % (e.get("lhs", e.get("t", "?")), short(e["loc"])) for e in wr)
+              or "returns %s" % rv, short(f.loc),
+              why="the boundary flag and distance come from find_next_step: a flag edited afterwards "
+                  "disagrees with where the track was moved")
+        brs = f.branch_blocks(lambda c, _b: c.get("core", "").replace(" ", "") == rv + ".boundary")
+        brs = [b for b in brs if None not in f.blocks[b]["succ"]]
+        if not mi:
+            # unconditional form: every path from find_next_step to the exit moves to the boundary
+            okp, path = f.must_pass(lambda ev: ev["e"] == "call" and ev["callee"].endswith("::move_to_boundary"),
+                                    start=(fns[0][0], fns[0][1]))
+            cx.ob(rule, "LinearPropagator %s: every path after find_next_step moves to the boundary" % tag,
+                  okp, str(path and f.path_locs(path)), short(f.loc),
+                  why="the unbounded form always ends the step on the next boundary")
+            continue
+        cx.require(brs, "LinearPropagator %s: no branch on %s.boundary" % (tag, rv))
+        for br in brs:
+            te = f.cond_polarity_edge(br, True)
+            t_tgt, f_tgt = f.blocks[br]["succ"][te], f.blocks[br]["succ"][1 - te]
+            rt = f.reach([t_tgt])
+            bad = [ev for (b, _i, ev) in mi if b in rt]
+            cx.ob(rule, "LinearPropagator %s: move_internal is unreachable once the geometry reports "
+                  "a boundary" % tag, not bad, ", ".join(short(e["loc"]) for e in bad), short(f.loc),
+                  why="moving by the full distance with move_internal puts the track on the surface "
+                      "without crossing state: the step point's volume is then ambiguous")
+            okp, path = f.must_pass(lambda ev: ev["e"] == "call" and ev["callee"].endswith("::move_to_boundary"),
+                                    start=(t_tgt, -1))
+            cx.ob(rule, "LinearPropagator %s: every path from the boundary edge calls move_to_boundary"
+                  % tag, okp, str(path and f.path_locs(path)), short(f.loc),
+                  why="a boundary-limited step must end on the boundary")
+            rf = f.reach([f_tgt])
+            bad = [ev for (b, _i, ev) in mtb if b in rf and b not in rt]
+            cx.ob(rule, "LinearPropagator %s: move_to_boundary only on the boundary edge" % tag,
+                  not bad, ", ".join(short(e["loc"]) for e in bad), short(f.loc),
+                  why="move_to_boundary without a found boundary is undefined in the navigator")
+    cx.floor("LinearPropagator forms checked", n, 1)
